@@ -489,7 +489,7 @@ class World(object):
             world.ev("F", world.seq, world.now, rid, ok, _plain(v))
             for st in (then or ()):
                 if st.get("when", "ok") == ("ok" if ok else "err") or st.get("when") == "any":
-                    world._run_app_step(st, nested=True)
+                    world._nested_step(st)
             return None
         d.addCallbacks(lambda v: fire(True, v), lambda f: fire(False, f))
 
@@ -533,8 +533,15 @@ class World(object):
             if isinstance(res, Deferred):
                 mid = getattr(res, "msgId", "absent")
                 self.reqs[rid]["msgId"] = mid
+                # was the Deferred handed back already fired?  (refusals and QoS 0 are)
+                if not res.called:
+                    rst = "pending"
+                elif isinstance(res.result, failure.Failure):
+                    rst = "failed"
+                else:
+                    rst = "ok"
                 self.ev("R", self.seq, self.now, rid, "deferred", _plain(mid),
-                        (st0, type(getattr(proto, "state", None)).__name__))
+                        (st0, type(getattr(proto, "state", None)).__name__), rst)
                 self._track_deferred(rid, res, then)
             else:
                 self.ev("R", self.seq, self.now, rid, "none", _plain(res),
@@ -571,6 +578,15 @@ class World(object):
             return
         raise ValueError("unknown app step %r" % op)
 
+    def _nested_step(self, st):
+        """A step the application performs from inside a callback; a step that
+        does not apply is a no-op, exactly as at top level."""
+        try:
+            self._run_app_step(st, nested=True)
+        except StepSkipped as e:
+            self.n_noop += 1
+            self.note("noop nested %s: %s" % (st.get("op"), e))
+
     def _set_handler(self, conn, which, on, then=None):
         world = self
         if not on:
@@ -581,7 +597,7 @@ class World(object):
         def cb(*args):
             world.ev("CB", world.seq, world.now, conn.idx, which, _plain(args))
             for st in (then or ()):
-                world._run_app_step(st, nested=True)
+                world._nested_step(st)
         cb.sim_app_cb = True
         cb.__name__ = "app_" + which
         setattr(conn.protocol, which, cb)
@@ -603,6 +619,19 @@ class World(object):
                                ("onMqttConnectionMade", "on_made")):
                 if st.get(key, True):
                     self._set_handler(conn, which, True, st.get(key + "_then"))
+            # observation-only probe (no repo hook): where, in the order of events, does the
+            # client start on each packet of a chunk that carries several?  Wraps the bound
+            # method on this instance if it exists; without it the ledger falls back to a
+            # coarser reading of multi-packet chunks.
+            pp = getattr(conn.protocol, "_processPacket", None)
+            if callable(pp):
+                def wrapped(packet, _pp=pp, _ci=conn.idx):
+                    self.ev("P", self.seq, self.now, _ci)
+                    return _pp(packet)
+                try:
+                    conn.protocol._processPacket = wrapped
+                except Exception:
+                    pass
             conn.protocol.makeConnection(conn.transport)
         self.dispatch("make", conn, {"cbs": [bool(st.get(k, True)) for k in ("on_pub", "on_disc", "on_made")]}, mk)
 
